@@ -155,3 +155,177 @@ def market_callee_specs():
 def t_add_order():
     obl, info = ADD_ORDER.verify(specs=market_callee_specs(), setup=B.setup_book)
     return {"obligations": obl, "info": [info]}
+
+
+# ----------------------------------------------------------------------------- _fill_until (C06: storage grows in chunks, filled slots untouched)
+def series_same_len(st, m):
+    refs = series_refs(st, m)
+    n0 = st.length(refs[0], SERIES[0][1])
+    return z3.And(*[st.length(r, ety) == n0 for (nm, ety), r in zip(SERIES[1:], refs[1:])])
+
+
+def fu_pre(st, a):
+    m = a["self"]
+    refs = series_refs(st, m)
+    nmid = st.length(series_ref(st, m, "_mid_prices"), ("real",))
+    return [("chunk size positive", st.read(m, "chunk_size").term > 0), ("time >= 0", a["time"].term >= 0),
+            ("the eight series are distinct lists, none shorter than the mid-price series",
+             z3.And(z3.Distinct(*refs), nmid >= 0, *[st.length(r, ety) >= nmid for (nm, ety), r in zip(SERIES, refs)]))]
+
+
+def series_prefix_kept(st0, st1, m, upto=None):
+    """for each series: the old content is a prefix of the new one (value and None-flag)"""
+    i = z3.Int("i_pref"); cs = []
+    for nm, ety in SERIES:
+        r0, r1 = series_ref(st0, m, nm), series_ref(st1, m, nm)
+        n0 = st0.length(r0, ety) if upto is None else upto
+        same = z3.Select(st1.elems(r1, ety), i) == z3.Select(st0.elems(r0, ety), i)
+        if ety[0] == "opt":
+            same = z3.And(same, z3.Select(st1.elems(r1, ety, "none"), i) == z3.Select(st0.elems(r0, ety, "none"), i))
+        cs.append((f"recorded values of {nm} are kept", z3.ForAll([i], z3.Implies(z3.And(0 <= i, i < n0), same))))
+    return cs
+
+
+def fu_post(st0, st1, a, res):
+    m = a["self"]; t = a["time"].term
+    i = z3.Int("i_fu"); cs = []
+    nmid = st0.length(series_ref(st0, m, "_mid_prices"), ("real",))
+    short = nmid < t + 1
+    c = st0.read(m, "chunk_size").term
+    L = (t / c + 1) * c
+    for nm, ety in SERIES:
+        r0, r1 = series_ref(st0, m, nm), series_ref(st1, m, nm)
+        n0, n1 = st0.length(r0, ety), st1.length(r1, ety)
+        cs.append((f"{nm}: long enough, never shorter; grows to the chunk boundary only when the mid series is too short",
+                   z3.And(n1 >= t + 1, n1 >= n0, n1 == z3.If(short, z3.If(L > n0, L, n0), n0))))
+        fresh_slot = z3.Select(st1.elems(r1, ety, "none"), i) if ety[0] == "opt" else (z3.Select(st1.elems(r1, ety), i) == 0)
+        cs.append((f"{nm}: new slots are empty (None / 0)", z3.ForAll([i], z3.Implies(z3.And(n0 <= i, i < n1), fresh_slot))))
+        cs.append((f"{nm}: storage is either the old list or a new object", z3.Or(r1 == r0, z3.Not(st0.is_alloc(r1)))))
+    cs.append(("the eight series stay distinct lists", z3.Distinct(*series_refs(st1, m))))
+    return cs + series_prefix_kept(st0, st1, m)
+
+
+FILL_UNTIL = FSpec("Market._fill_until", pre=fu_pre, post=fu_post, props=("C06",),
+                   modifies=lambda st, a: [("f:Market." + nm, [a["self"].term]) for nm, _ in SERIES] + ["len:Real", "len:Int", "el:Real", "el:Real?", "el:Int"])
+
+
+@task("Market._fill_until", props=["C06", "C08"], functions=["Market._fill_until"], replay="market_ops")
+def t_fill_until():
+    obl, info = FILL_UNTIL.verify()
+    return {"obligations": obl, "info": [info]}
+
+
+# ----------------------------------------------------------------------------- _update_time (C06 clock and history, C08 carry rules, C04/C10 expiry)
+def clock_shape(st, m):
+    """before the first tick: market at -1, books at 0, only the configured market price stored; afterwards: lock-step, equal series lengths"""
+    t = st.read(m, "time").term
+    bb, sb = books(st, m)
+    bt, stt = st.read(bb, "time").term, st.read(sb, "time").term
+    refs = series_refs(st, m)
+    lens = [st.length(r, ety) for (nm, ety), r in zip(SERIES, refs)]
+    first = z3.And(t == -1, bt == 0, stt == 0, lens[0] == 1, *[l == 0 for l in lens[1:]])
+    later = z3.And(t >= 0, bt == t, stt == t, lens[0] > t, *[l == lens[0] for l in lens[1:]])
+    return z3.Or(first, later)
+
+
+def future_empty(st, m, after):
+    """slots beyond `after` have never been written: None for prices, 0 for counters"""
+    i = z3.Int("i_fut"); cs = []
+    for nm, ety in SERIES:
+        r = series_ref(st, m, nm); n = st.length(r, ety)
+        if nm == "_market_prices":
+            continue       # slot 0 of the market price series is pre-set by Market.setup
+        empty = z3.Select(st.elems(r, ety, "none"), i) if ety[0] == "opt" else (z3.Select(st.elems(r, ety), i) == 0)
+        cs.append(z3.ForAll([i], z3.Implies(z3.And(after < i, i < n), empty)))
+    r = series_ref(st, m, "_market_prices")
+    cs.append(z3.ForAll([i], z3.Implies(z3.And(after < i, i < st.length(r, ("real",)), i >= 1), z3.Select(st.elems(r, ("opt", ("real",)), "none"), i))))
+    return z3.And(*cs)
+
+
+def ut_pre(st, a):
+    m = a["self"]
+    inv = market_inv(st, m, series=False, skip=("M1",))
+    bb, sb = books(st, m)
+    return inv + [("M1' two distinct books, buy and sell", z3.And(bb.term != sb.term, st.read(bb, "is_buy").term, z3.Not(st.read(sb, "is_buy").term))),
+                  ("clock shape (pre-first-tick or lock-step)", clock_shape(st, m)), ("series are distinct lists", z3.Distinct(*series_refs(st, m))),
+                  ("slots after the current time are still empty", future_empty(st, m, st.read(m, "time").term)),
+                  ("chunk size positive", st.read(m, "chunk_size").term > 0)]
+
+
+def ut_modifies(st, a):
+    m = a["self"]
+    bb, sb = books(st, m)
+    return [("f:Market.time", [m.term]), ("f:OrderBook.time", [bb.term, sb.term])] + [("f:Market." + nm, [m.term]) for nm, _ in SERIES] + \
+           ["len:Real", "len:Int", "el:Real", "el:Real?", "el:Int"] + B.ceo_modifies(st, {"self": bb}) + B.ceo_modifies(st, {"self": sb})
+
+
+def ut_post(st0, st1, a, res):
+    m, nf = a["self"], a["next_fundamental_price"]
+    t0 = st0.read(m, "time").term; t1 = t0 + 1
+    bb, sb = books(st0, m)
+    qB, qS = queue(st0, bb).term, queue(st0, sb).term
+    y = z3.Const("y_ut", REF)
+    running = st0.read(m, "_is_running").term
+    le0 = cell(st0, m, "_last_executed_prices", t0); mid0 = cell(st0, m, "_mid_prices", t0); mp0_ = cell(st0, m, "_market_prices", t0)
+    le1 = cell(st1, m, "_last_executed_prices", t1); mid1 = cell(st1, m, "_mid_prices", t1); mp1 = cell(st1, m, "_market_prices", t1)
+    f1 = cell(st1, m, "_fundamental_prices", t1)
+    mpz = cell(st0, m, "_market_prices", z3.IntVal(0))
+    def same_opt(x, y_):
+        return z3.And(x.none == y_.none, z3.Implies(z3.Not(y_.none), x.term == y_.term))
+    exp_mp = z3.If(running, z3.If(z3.Not(le0.none), le0.term, z3.If(z3.Not(mid0.none), mid0.term, mp0_.term)), mp0_.term)
+    exp_mp_none = z3.If(running, z3.If(z3.Not(le0.none), False, z3.If(z3.Not(mid0.none), False, mp0_.none)), mp0_.none)
+    out = [("C06 the clock advances by exactly one, for the market and both of its books",
+            z3.And(st1.read(m, "time").term == t1, st1.read(bb, "time").term == t1, st1.read(sb, "time").term == t1,
+                   books(st1, m)[0].term == bb.term, books(st1, m)[1].term == sb.term, queue(st1, bb).term == qB, queue(st1, sb).term == qS)),
+           ("C06 the fundamental price handed in is recorded for the new time", z3.And(z3.Not(f1.none), f1.term == to_real(nf))),
+           ("C08 last-trade and mid price are carried into the new slot", z3.Implies(t1 > 0, z3.And(same_opt(le1, le0), same_opt(mid1, mid0)))),
+           ("C08 market price in the new slot: last trade, else mid, else previous while running; carried unchanged while not running",
+            z3.Implies(t1 > 0, z3.And(mp1.none == exp_mp_none, z3.Implies(z3.Not(exp_mp_none), mp1.term == exp_mp)))),
+           ("C06 first step: the configured market price is kept, else the fundamental price is used",
+            z3.Implies(t1 == 0, z3.And(z3.Not(mp1.none), mp1.term == z3.If(mpz.none, to_real(nf), mpz.term)))),
+           ("C04 an order leaves its book exactly when the clock passes placed_at + ttl (buy side)", z3.ForAll([y], st1.mem(qB, y) == z3.And(st0.mem(qB, y), z3.Not(B.expired(st0, bb, y, t1))))),
+           ("C04 an order leaves its book exactly when the clock passes placed_at + ttl (sell side)", z3.ForAll([y], st1.mem(qS, y) == z3.And(st0.mem(qS, y), z3.Not(B.expired(st0, sb, y, t1))))),
+           ("C08 counters of the new step start from zero", future_empty(st1, m, t1))]
+    # C06: recorded history (slots <= old time) never changes, for all eight series
+    i = z3.Int("i_hist")
+    for nm, ety in SERIES:
+        r0, r1 = series_ref(st0, m, nm), series_ref(st1, m, nm)
+        same = z3.Select(st1.elems(r1, ety), i) == z3.Select(st0.elems(r0, ety), i)
+        if ety[0] == "opt":
+            same = z3.And(z3.Select(st1.elems(r1, ety, "none"), i) == z3.Select(st0.elems(r0, ety, "none"), i), same)
+        out.append((f"C06 values recorded in {nm} for past times are unchanged", z3.ForAll([i], z3.Implies(z3.And(0 <= i, i <= t0), same))))
+    return out + market_inv(st1, m)
+
+
+def ut_trace(st0, st1, a, res):
+    m = a["self"]
+    lg = st0.read(m, "logger")
+    tmpl = ((("Write", None, (ELEM_, lg.term))),)
+    lb = st1.ghost.get("logs_buy"); ls = st1.ghost.get("logs_sell")
+    return [("ForEach", z3.Not(lg.none), (lb, (("Write", None, (ELEM_, lg.term)),))), ("ForEach", z3.Not(lg.none), (ls, (("Write", None, (ELEM_, lg.term)),)))]
+
+
+from pyvc.spec import ELEM as ELEM_     # noqa
+
+UPDATE_TIME = FSpec("Market._update_time", axioms=lambda st, a: market_axioms(st, a["self"]), pre=ut_pre, post=ut_post, modifies=ut_modifies, trace=ut_trace,
+                    props=("C06", "C08", "C04", "C10"))
+
+
+def ut_setup(ex, st, a):
+    B.setup_book(ex, st, a)
+
+    def g1(ex_, s1):
+        s1.ghost["logs_buy"] = s1.env["logs"].term
+
+    def g2(ex_, s1):
+        s1.ghost["logs_sell"] = s1.env["logs_"].term
+    ex.ghost_after = {"assign:logs": g1, "assign:logs_": g2}
+
+
+@task("Market._update_time", props=["C06", "C08", "C04", "C10"], functions=["Market._update_time"], replay="market_ops", heavy=True)
+def t_update_time():
+    specs = market_callee_specs()
+    specs[("m", "Market", "_fill_until")] = FILL_UNTIL.handler()
+    loops = {0: ForEachTrace(header="logs", name="write-buy-expirations"), 1: ForEachTrace(header="logs_", name="write-sell-expirations")}
+    obl, info = UPDATE_TIME.verify(specs=specs, loops=loops, setup=ut_setup)
+    return {"obligations": obl, "info": [info]}
